@@ -88,7 +88,8 @@ def run(tier):
         'on both runs (one path per seed), a leak is refuted with the two distinguishing values. Library generators with a seed= '
         'argument are called twice the same way.')
     run.bounds = ['%d command lines x 4 seeds; 9 library generators x 4 seeds' % len(H.COMMANDS), 'graphs and formulas with <=8 vertices / variables per side', '<=40 unseeded draws per run']
-    run.outside = ['hash randomisation (PYTHONHASHSEED) and the working directory are properties of the interpreter process, not of any function that can be executed symbolically (an auxiliary concrete sweep over three PYTHONHASHSEED values per command line is run and reported separately); '
+    run.bounds += ['24 library calls with non-default options, each twice on equal but distinct argument objects (complete output incl. header)', '9 dense RandomKCNF/RandomKXOR requests x 5 deterministic non-MT streams after seeding, same seed twice with another call in between', 'auxiliary process sweeps (not solver-decided): 55 command lines x 3 PYTHONHASHSEED values incl. 8 reading graph files with named vertices; 16 file-reading command lines from two working directories']
+    run.outside = ['hash randomisation (PYTHONHASHSEED) and the working directory are properties of the interpreter process, not of any function that can be executed symbolically (auxiliary concrete sweeps over three PYTHONHASHSEED values and two working directories are run and reported separately); '
                    'the version string in the header is computed by `git describe` in the current directory (observation, not decided)',
                    'the Mersenne Twister itself: "same seed => same stream" is assumed', 'command lines outside the table']
     run.assumptions = ['stub: module random (functions and random._inst) -> two-phase fake (arbitrary before seed, random.Random(seed) after)',
